@@ -30,14 +30,19 @@ CHECKS = {
  'C09': dict(level='proof', design='3.C09',
    technique='static dataflow normalisation of optimised LLVM IR: AC-flattening of the reduction tree into a multiset of lane atoms',
    text="reduce_add / reduce_max / reduce_min / generic reduce(f,x) with an opaque lane-wise f / haddp, per (element type, configuration): the term of the scalar result (or of each haddp lane) is flattened over its associative-commutative operator; every lane must occur exactly once for add/reduce (integers: coefficient 1 in the linear normal form = the modular sum; floats: an fadd tree = 'summed in some association order'), at least once and nothing else for min/max; haddp lane i must be the fadd tree over exactly the lanes of row i. Decided for all lane counts 2..64 on 21 configurations."),
+ 'C20': dict(level='proof', design='3.C20', engine='witness',
+   note="Trusted base: clang 14's front end (constant evaluation, template instantiation, sizeof/alignof of the x86 vector types); the register widths 128/256/512 of the SSE/AVX/AVX512 families. Decided for clang's view of the headers with every x86 ISA macro enabled, and once per single-ISA flag set for the relations that depend on supported().",
+   technique='compile-time witnesses: generated static_assert obligations decided by the C++ type checker (clang -fsyntax-only), no execution',
+   text="Every relation of the property is a C++ constant expression over the headers; ~67 000 static_assert witnesses are generated per (relation, architecture in all_x86_architectures + emulated<128/256>, 21 element types incl. char/long/long long aliases, lane count N = 1..128, 22 ISA flag sets): size*sizeof(T) = register width of the family; sizeof(register_type); batch_bool / complex lane counts and associated types; alignment() power of two and >= alignof(register_type) (the compiler's statement of what aligned loads need); for every pair (A,P) with P a base of A, A precedes P in all_x86_architectures, and wider families precede narrower ones; arch_list::alignment() = max over all pairs, both orders, and cross-family triples; supported_architectures is an order-preserving sub-list of all_architectures containing A iff A::supported(), best_arch/default_arch its head; make_sized_batch<T,N> for every N in 1..128 is void or a batch with exactly N lanes of T and equals the first supported architecture with such a register; is_batch/is_batch_bool/is_batch_complex/scalar_type/mask_type/as_logical/simd_return_type/as_integer/as_unsigned_integer/as_float name types of matching width, count and architecture. The property holds for the enumerated instantiations iff the witness TUs type-check; a failing witness names (relation, architecture, type, N, flag set)."),
 }
 NA = {}
 def main():
     m = {"version": 1, "setup_cmd": "sh /verif/setup.sh",
          "hooks": {"guard": "XSIMD_VERIF", "enable": "none needed: no check executes xsimd code; checks compile /repo/include (current working tree) to LLVM IR with clang++ and analyse the IR / AST / type-checker verdicts", "baseline_off_cmd": "cmake --build /repo/_build -j16 && ctest --test-dir /repo/_build -j8 --timeout 900", "source_commits": [], "add_only": True},
          "engines": [
-            {"name": "xir", "path": "/verif/tools/xir.cc", "serves_properties": sorted(CHECKS), "kind_free_text": "LLVM-14 API tool dumping optimised IR (instructions, constants, shuffle masks, debug inlining chains) as JSON"},
-            {"name": "lane-terms", "path": "/verif/engine", "serves_properties": sorted(CHECKS), "kind_free_text": "bit-slice/term normaliser over straight-line SSA (engine/terms.py, engine/lanes.py), obligation driver (engine/lanecheck.py)"}],
+            {"name": "xir", "path": "/verif/tools/xir.cc", "serves_properties": sorted(p for p in CHECKS if CHECKS[p].get('engine', 'lane-terms') != 'witness'), "kind_free_text": "LLVM-14 API tool dumping optimised IR (instructions, constants, shuffle masks, debug inlining chains) as JSON"},
+            {"name": "witness", "path": "/verif/engine/witness.py", "serves_properties": sorted(p for p in CHECKS if CHECKS[p].get('engine') == 'witness'), "kind_free_text": "generated static_assert / compile-fail witness translation units decided by clang -fsyntax-only"},
+            {"name": "lane-terms", "path": "/verif/engine", "serves_properties": sorted(p for p in CHECKS if CHECKS[p].get('engine', 'lane-terms') == 'lane-terms'), "kind_free_text": "bit-slice/term normaliser over straight-line SSA (engine/terms.py, engine/lanes.py), obligation driver (engine/lanecheck.py)"}],
          "checks": [], "not_applicable": []}
     for pid in sorted(CHECKS):
         c = CHECKS[pid]
